@@ -31,6 +31,7 @@ class Mod:
         self.lines = []
         self.pyimports = []
         self.self_import = False
+        self.idle = []          # imported, never used
 
 
 def _int_expr(r, mod, mods, privs, depth=0):
@@ -105,6 +106,8 @@ def gen_graph(r, opts):
         n = max(n, 4)
     if shape == "twocycles":
         n = max(n, 5)
+    if shape == "overlap":
+        n = max(n, 4)
     names = ["main"] + [f"m{i}" for i in range(1, n)]
     deps = {m: [] for m in names}
     cyc = {m: [] for m in names}
@@ -165,6 +168,17 @@ def gen_graph(r, opts):
         for j, m in enumerate(rest):
             imp = r.pick([a, b, c] + rest[:j])
             deps[imp].append(m)
+    elif shape == "overlap":
+        # two cycles of different length sharing the edge b -> c:  a -> b -> c,  c -> b,  c -> a
+        a, b, c = names[1], names[2], names[3]
+        deps["main"] += [a]
+        cyc[a].append(b)
+        cyc[b].append(c)
+        cyc[c] += [b, a]
+        rest = names[4:]
+        for j, m in enumerate(rest):
+            imp = r.pick([a, b, c] + rest[:j])
+            deps[imp].append(m)
     elif shape == "twocycles":
         # a <-> b and a <-> c share the node a
         a, b, c = names[1], names[2], names[3]
@@ -176,18 +190,28 @@ def gen_graph(r, opts):
         for j, m in enumerate(rest):
             imp = r.pick([a, b, c] + rest[:j])
             deps[imp].append(m)
-    return names, deps, cyc, shape, self_imp
+    # idle imports: a module imported but never touched by its importer. Lowering the importer then
+    # never joins that module's analysis thread; only the entry module's final join waits for it.
+    idle = {m: [] for m in names}
+    if shape in ("dag", "chain", "diamond", "fanout", "self"):
+        for j in range(1, len(names)):
+            if r.chance(opts.get("p_idle_import", 0.2)):
+                i = r.below(j)
+                if names[j] not in deps[names[i]]:
+                    idle[names[i]].append(names[j])
+    return names, deps, cyc, shape, self_imp, idle
 
 
 def gen_project(seed, idx, opts=None):
     opts = opts or {}
     r = SplitMix.derive(seed, opts.get("label", "proj"), idx)
-    names, deps, cyc, shape, self_imp = gen_graph(r, opts)
+    names, deps, cyc, shape, self_imp, idle = gen_graph(r, opts)
     mods = {m: Mod(m) for m in names}
     for m in names:
         mods[m].deps = sorted(set(deps[m]), key=names.index)
         mods[m].cyc = cyc[m]
         mods[m].self_import = m in self_imp
+        mods[m].idle = [x for x in idle[m] if x not in mods[m].deps]
 
     poly = r.chance(opts.get("p_poly", 0.1))           # un-annotated polymorphic exports
     infer_fail = poly and r.chance(opts.get("p_infer_fail", 0.0))
@@ -212,10 +236,17 @@ def gen_project(seed, idx, opts=None):
         visit(m)
 
     rich_cycle = r.chance(opts.get("p_rich_cycle", 0.1))
+    if shape == "overlap":
+        rich_cycle = False
+        _overlap_members(r, mods, names)
     for m in order:
         mod = mods[m]
         L = mod.lines
+        if shape == "overlap" and mod.cyc:
+            continue
         for d in mod.deps + mod.cyc:
+            L.append(f'{d} = import "{d}"')
+        for d in mod.idle:
             L.append(f'{d} = import "{d}"')
         if mod.cyc and not rich_cycle:
             _corpus_style_member(r, mod, mods)
@@ -335,6 +366,10 @@ def gen_project(seed, idx, opts=None):
             arg = r.range(0, 5)
             terms.append(f"{d}.{f}({arg})")
             total += dm.funs[f](arg)
+    for d in main.deps:
+        for t, v in getattr(mods[d], "overlap_terms", []):
+            terms.append(t)
+            total += v
     for n_ in sorted(main.ints):
         terms.append(n_ref(n_))
         total += main.ints[n_]
@@ -364,14 +399,15 @@ def gen_project(seed, idx, opts=None):
             errors.append((v, kind))
 
     files = {f"{m}.er": "\n".join(mods[m].lines) + "\n" for m in names}
-    graph = {m: mods[m].deps + mods[m].cyc + ([m] if mods[m].self_import else []) for m in names}
+    graph = {m: mods[m].deps + mods[m].cyc + mods[m].idle + ([m] if mods[m].self_import else []) for m in names}
     flags = {
         "has_cycle_ge3": shape == "cycle3",
         "cycle_member_imported_from_outside": shape in ("cycle2_outside",) or _outside_importer(mods, names),
-        "has_cycle": shape in ("cycle2", "cycle2_outside", "cycle3", "twocycles"),
+        "has_cycle": shape in ("cycle2", "cycle2_outside", "cycle3", "twocycles", "overlap"),
         "poly": poly,
         "self_import": bool(self_imp),
-        "rich_cycle": rich_cycle and shape in ("cycle2", "cycle2_outside", "cycle3", "twocycles"),
+        "rich_cycle": rich_cycle and shape in ("cycle2", "cycle2_outside", "cycle3", "twocycles", "overlap"),
+        "idle_imports": any(mods[m].idle for m in names),
         "infer_fail": any(k == "inference" for _, k in errors),
     }
     return {
@@ -406,6 +442,33 @@ def _corpus_style_member(r, mod, mods):
         for n_ in sorted(dm.ints)[:2]:
             L.append(f"u_{d}_{n_}: Int = {d}.{n_}")
     L.append(f'print! "TAG_{m}"')
+
+
+def _overlap_members(r, mods, names):
+    """a -> b -> c, c -> b, c -> a: every member defines its typed constant *before* its imports
+    (an inlined partner is analysed at the import line and sees only what precedes it) and a
+    nullary typed function that uses its partners"""
+    a, b, c = names[1], names[2], names[3]
+    va, vb, vc = r.range(0, 40), r.range(0, 40), r.range(0, 40)
+    fc = va + vb
+    fb = vc + fc
+    fa = vb + fb
+    for m, v, imps, body, fv in ((a, va, [b], f"{b}.k{b} + {b}.fn{b}()", fa), (b, vb, [c], f"{c}.k{c} + {c}.fn{c}()", fb),
+                                 (c, vc, [b, a], f"{a}.k{a} + {b}.k{b}", fc)):
+        mod = mods[m]
+        L = mod.lines
+        L.append(f".k{m}: Int = {v}")
+        for d in imps + mod.deps:
+            L.append(f'{d} = import "{d}"')
+        L.append(f".fn{m}(): Int = {body}")
+        for d in mod.deps:
+            for n_ in sorted(mods[d].ints)[:2]:
+                L.append(f"u_{d}_{n_}: Int = {d}.{n_}")
+        L.append(f'print! "TAG_{m}"')
+        mod.ints = {}
+        mod.funs = {}
+    # what main may use of `a`: its constant and its function, from private top-level code
+    mods[a].overlap_terms = [(f"{a}.k{a}", va), (f"{a}.fn{a}()", fa)]
 
 
 def _outside_importer(mods, names):
